@@ -5,7 +5,7 @@ import Props.C01
 
 `Generated/SSA_Num.lean` (namespace `Gen`) is written by `gossa/ssagen` from the typed SSA form of package `xmath/num`
 of the repository's working tree on every run of `./check C01`: one Lean definition per loop-free, panic-free function
-or method of the package (80 of them today; the header of the generated file lists the translated functions and, with
+or method of the package (80 of them at the time of writing; the header of the generated file lists the translated functions and, with
 the reason, the ones outside the fragment).  Each theorem `X_eq` below states that the regenerated definition of the
 Go function `X` is the function of the hand-written model (`Model/U128.lean`, `Model/I128.lean`) that the theorems of
 `Props/C01.lean` are about, so every specification proved there holds for *what the code says now*; the corollaries at
@@ -15,10 +15,13 @@ Encoding.  `Gen` keeps every Go integer as its 64-bit pattern (`BitVec 64`: `uin
 model states `int` results / arguments as `Int` and `uint` ones as `Nat`; a theorem about such a function therefore
 reads `(Gen.f x).toInt = model x`, `(Gen.f x).toNat = model x` or `Gen.f x n = model x n.toNat`.
 
-The proofs use one script (`gen_tie`, `Lemmas/GenTie.lean`) that does not depend on the shape of the generated term:
-unfold, turn sign / zero tests into arithmetic, split every `if`, close by `rfl` or `omega`.  A behaviour-preserving
-rewrite of the Go code (switch ↔ if-chain, merged branches, a new helper function …) is still proved; a change of
-behaviour makes the corresponding theorem fail, which `./check C01` reports as a proof that no longer checks. -/
+The proofs use one script (`gen_tie [model definitions] [model constants]`, `Lemmas/GenTie.lean`) that does not depend
+on the shape of the generated term and does not name the generated definitions (they carry the simp attributes
+`gen_def` / `gen_const`): unfold, turn sign / zero tests into arithmetic, split every `if`, close by `rfl` or `omega`.
+A behaviour-preserving rewrite of the Go code (switch ↔ if-chain, merged branches, swapped or commuted operands, a sign
+test written as `int64(hi) < 0` or `hi>>63`, a new helper function …) is still proved; a change of behaviour makes the
+corresponding theorem fail, which `./check C01` reports as a proof that no longer checks (and the differential run
+looks for the concrete input).  Limits: bit-level subterms and the calls of `math/bits` must keep their form. -/
 namespace C01Gen
 open U128 (W)
 
